@@ -84,6 +84,10 @@ def _single_op(case, rng):
     sd = "%08x" % rng.getrandbits(32)
     if op in ("shell", "exec_out", "streaming_shell"):
         step = {"op": op, "cmd": "x", "decode": False, "cls": rng.choice(["ascii", "random", "utf8", "mixed"]), "seed": sd, "take": None}
+        if case.get("how") in ("byte", "bit") and int(sd[:2], 16) % 3 == 0:
+            # the same payload several times in a row (a progress line, a block of a repetitive file): every copy is verified on its own
+            line = bytes(rng.getrandbits(8) for _ in range(rng.choice([1, 8, 60]))).hex()
+            step["chunks"] = [line] * 4
         if case.get("how") == "zeros-bit":
             # all-NUL payloads: their byte sum is 0, so the checksum field is 0 too
             step["chunks"] = [("00" * n) for n in (rng.choice([1, 4, 100]), rng.choice([1, 24, 300]), 7)]
